@@ -166,6 +166,30 @@ Theorem C03_forms_agree_matmul : forall R (ops : numops R) (vx vy : tview R) lx 
   t_matmul ops (OV vx) (OT my) = t_matmul ops (OV vx) (OV vy).
 Proof. exact @forms_agree_matmul. Qed.
 
+(* the hypotheses `view_wf` above are met by non-row-major operands: reversed, renamed and ranged
+   views of a well-formed view are well formed and expose the source's elements at the mapped
+   index (so the theorems apply to operands whose view order differs from their storage order) *)
+Theorem C03_reverse_view_wf : forall A (v v' : tview A) names, view_wf v ->
+  v_reverse v names = Some v' ->
+  view_wf v' /\ v_shape v' = v_shape v /\
+  forall idx, v_get v' idx =
+    v_get v (reverse_indexes idx (v_shape v)
+               (map (fun d => existsb (Nat.eqb (fst d)) names) (v_shape v))).
+Proof. exact @reverse_wf. Qed.
+
+Theorem C03_rename_view_wf : forall A (v v' : tview A) names, view_wf v ->
+  v_rename v names = Some v' ->
+  view_wf v' /\ names_of (v_shape v') = names /\ lens_of (v_shape v') = lens_of (v_shape v) /\
+  forall idx, v_get v' idx = v_get v idx.
+Proof. exact @rename_wf. Qed.
+
+Theorem C03_range_view_wf : forall A (v v' : tview A) rs, view_wf v -> v_range v rs = Some v' ->
+  view_wf v' /\ names_of (v_shape v') = names_of (v_shape v) /\ lens_of (v_shape v') = map snd rs /\
+  forall idx, in_range idx (map snd rs) ->
+    exists j, map_by_range idx rs = Some j /\ in_range j (lens_of (v_shape v)) /\
+              v_get v' idx = v_get v j.
+Proof. exact @range_wf. Qed.
+
 (* non-vacuity: a 3x2 tensor accessed in the transposed order is a well-formed 2x3 view whose
    view order (10 30 50 20 40 60) differs from its storage order (10 20 30 40 50 60); adding it
    to a 2x3 tensor pairs the elements in view order; the transposed view times the 3x2 tensor
@@ -225,3 +249,6 @@ Print Assumptions C03_tensor_matrix_agree_map.
 Print Assumptions C03_tensor_matrix_agree_matmul.
 Print Assumptions C03_forms_agree_elementwise.
 Print Assumptions C03_forms_agree_matmul.
+Print Assumptions C03_reverse_view_wf.
+Print Assumptions C03_rename_view_wf.
+Print Assumptions C03_range_view_wf.
